@@ -8,6 +8,7 @@ import (
 	"go/token"
 	"go/types"
 	"sort"
+	"strings"
 
 	"golang.org/x/tools/go/ssa"
 )
@@ -222,7 +223,26 @@ func (e *bigEnv) bytesOf(v ssa.Value, at ssa.Instruction) *X {
 		}
 		return Op("make", e.plainIdx(x.Len, at))
 	case *ssa.Phi:
-		return L("?phi")
+		// a join whose incoming values are canonically equal is that value
+		if e.phiBusy == nil {
+			e.phiBusy = map[*ssa.Phi]bool{}
+		}
+		if e.phiBusy[x] {
+			return L("?phi")
+		}
+		e.phiBusy[x] = true
+		defer delete(e.phiBusy, x)
+		var forms []string
+		for i, ed := range x.Edges {
+			pred := x.Block().Preds[i]
+			forms = append(forms, e.bytesOf(ed, pred.Instrs[len(pred.Instrs)-1]).String())
+		}
+		sort.Strings(forms)
+		forms = dedup(forms)
+		if len(forms) == 1 {
+			return L(forms[0])
+		}
+		return L("?phi(" + strings.Join(forms, "|") + ")")
 	case *ssa.UnOp:
 		if x.Op == token.MUL {
 			if fa, ok := x.X.(*ssa.FieldAddr); ok {
